@@ -127,7 +127,13 @@ AfterLastLF(s, i) == IF i = 0 THEN Len(s) ELSE IF SubSeq(s, i, i) = "\n" THEN Le
 Scan(s) == LET n == CountLF(s, 1) IN [str |-> s, lines |-> n, col |-> IF n = 0 THEN -1 ELSE AfterLastLF(s, Len(s))]
 
 \* a line break: [str, lines (how many line feeds), col (length of what follows the last line feed)]
-Brk(st, depth) == [str |-> st.trail \o st.eol \o Rep("  " \o st.eol, st.blank) \o Rep(Rep(" ", depth) \o "# c" \o st.eol, st.cmt) \o Rep(st.ind, depth),
+\* optional style fields: cind = 0 puts the full-line comments in column 0 whatever the depth; pad = 1 makes each of them longer than
+\* 64 KiB (a line length at which line-oriented readers with a fixed buffer give up)
+RECURSIVE Dbl(_, _)
+Dbl(s, n) == IF n = 0 THEN s ELSE Dbl(s \o s, n - 1)
+Big == Dbl(" long comment", 13)                       \* 13 * 2^13 = 106,496 characters
+CmtLine(st, depth) == (IF "cind" \in DOMAIN st /\ st.cind = 0 THEN "" ELSE Rep(" ", depth)) \o "# c" \o (IF "pad" \in DOMAIN st /\ st.pad = 1 THEN Big ELSE "") \o st.eol
+Brk(st, depth) == [str |-> st.trail \o st.eol \o Rep("  " \o st.eol, st.blank) \o Rep(CmtLine(st, depth), st.cmt) \o Rep(st.ind, depth),
                    lines |-> 1 + st.blank + st.cmt, col |-> Len(Rep(st.ind, depth))]
 Flat(s) == [str |-> s, lines |-> 0, col |-> -1]
 Sep(st, kind) ==
